@@ -113,6 +113,10 @@ type scriptedFilter struct {
 	calls    int
 	mutResp  bool
 	sendStop bool
+	// verdict "sendhijack": as a send filter, answer the request itself (once) when the response comes by
+	sendHijack bool
+	hijacked   bool
+	reqHeaders api.HeaderMap
 }
 
 func (s *scriptedFilter) OnDestroy()                                                {}
@@ -184,6 +188,8 @@ func (s *scriptedFilter) OnReceive(ctx context.Context, headers api.HeaderMap, b
 		return api.StreamFilterStop
 	case "sendstop":
 		s.sendStop = true // this filter will stop the send filter chain of the response (the response still goes out)
+	case "sendhijack":
+		s.sendHijack, s.reqHeaders = true, headers // this filter will replace the response by a reply of its own
 	case "rematch":
 		if s.f.phase == int(api.AfterRoute) || s.f.phase == int(api.AfterChooseHost) {
 			return api.StreamFilterReMatchRoute // (in the last phase the proxy ignores it: "Retry only at the AfterRoute phase")
@@ -202,6 +208,13 @@ func (s *scriptedFilter) Append(ctx context.Context, headers api.HeaderMap, buf 
 		headers.Set("x-rmut", "by-"+s.f.name) // C01: ... and the response
 	}
 	if s.sendStop {
+		return api.StreamFilterStop
+	}
+	if s.sendHijack && !s.hijacked && s.rh != nil {
+		// what MOSN's own transcoder filter does when it cannot translate a response: answer through the
+		// receive handler from inside the send phase, and stop the chain
+		s.hijacked = true
+		s.rh.SendHijackReplyWithBody(403, s.reqHeaders, "send-hijack-"+s.f.name)
 		return api.StreamFilterStop
 	}
 	return api.StreamFilterContinue
